@@ -45,6 +45,15 @@ class G:
         self.msg_n = 0
         self.hz = cfg.get("hazards") or {}
         self.human_pre_ckpt = cfg.get("human_pre_ckpt", True)
+        self.gates = set(cfg.get("gates") or [])
+
+    def gated(self, name):
+        return name in self.gates
+
+    def choose_pos(self, options, gate=None, banned=()):
+        if gate and self.gated(gate):
+            options = [o for o in options if o not in banned]
+        return self.rng.choice(options)
 
     @property
     def repo(self):
@@ -157,13 +166,11 @@ class G:
                 yield self.human_edit(path=path, pos=pos)
 
     def install_seqed(self):
-        p = os.path.join(self.w.root, "seqed.py")
-        if not os.path.exists(p):
-            return {"op": "write_raw", "root": ".", "path": "seqed.py", "content": SEQED, "chmod": 0o755, "dt": 1}
         return None
 
     def seq_env(self, plan):
-        return {"GIT_SEQUENCE_EDITOR": os.path.join(self.w.root, "seqed.py"), "SIM_TODO_PLAN": plan}
+        # {ROOT} is substituted by the executor: traces never contain scratch paths
+        return {"GIT_SEQUENCE_EDITOR": "{ROOT}/seqed.py", "SIM_TODO_PLAN": plan}
 
 
 # ======================================================================================
@@ -185,18 +192,20 @@ def upstream_change(g, pos, path, other_path=None, who=None):
                   pos={"above": "top", "below": "bottom", "interleaved": "any"}.get(pos, "any"))
 
 
-def resolve_loop(g, continue_cmd, abort_cmd, allow_abort=True, strategy=None):
+def resolve_loop(g, continue_cmd, abort_cmd, allow_abort=True, strategy=None, must_abort=False):
     """after a stop: resolve conflicts and continue until done, or abort"""
     for _ in range(8):
         st = g.in_progress()
         if not st:
             return
         g.ex.probe("conflict.stop")
-        if allow_abort and g.rng.random() < 0.25:
+        if must_abort or (allow_abort and g.rng.random() < 0.25):
             yield g.git(*abort_cmd, aborts=True)
             return
         if g.has_conflicts():
-            yield {"op": "resolve", "strategy": strategy or g.rng.choice(["union", "ours", "theirs"]), "dt": g.dt()}
+            # a resolver picks one side per region (keeping both the old and the new version of a
+            # modified line, as "union" does, is not something the property describes)
+            yield {"op": "resolve", "strategy": strategy or g.rng.choice(["ours", "theirs"]), "dt": g.dt()}
         yield g.git(*continue_cmd, env={"GIT_EDITOR": "true"}, check=True)
     if g.in_progress():
         yield g.git(*abort_cmd, aborts=True)
@@ -242,11 +251,13 @@ def fam_rebase(g, kind="plain"):
         yield g.git("rebase", "-i", base_branch, env=g.seq_env(plan), rewrite=True, plan=plan)
         if g.in_progress() == "rebase" and not g.has_conflicts() and plan.startswith("edit"):
             # stopped for editing: amend with an AI or human change, then continue
-            yield (g.ai_edit(path=path) if rng.random() < 0.6 else g.human_edit(path=path))
-            yield g.git("add", "-A")
-            yield g.git("commit", "-q", "--amend", "--no-edit")
+            if not g.gated("rebase_edit_amend"):
+                yield (g.ai_edit(path=path) if rng.random() < 0.6 else g.human_edit(path=path))
+                yield g.git("add", "-A")
+                yield g.git("commit", "-q", "--amend", "--no-edit")
             yield g.git("rebase", "--continue", env={"GIT_EDITOR": "true"}, check=True)
-    yield from resolve_loop(g, ["rebase", "--continue"], ["rebase", "--abort"])
+    yield from resolve_loop(g, ["rebase", "--continue"], ["rebase", "--abort"],
+                            must_abort=(n > 1 and g.gated("rebase_conflict_multi_commit")))
     if g.head() != before:
         g.ex.probe("rebase.rewrote")
 
@@ -275,10 +286,16 @@ def fam_amend(g):
     yield from g.some_edits(n_ai=(1, 2), n_human=(0, 1))
     yield from g.commit_all()
     mode = rng.choice(["ai", "human", "both", "message"])
+    if g.gated("amend_shift") and mode == "both":
+        mode = "ai"
     if mode in ("ai", "both"):
         yield g.ai_edit(pos=rng.choice(["above_ai", "below_ai", "inside_ai", "any"]))
     if mode in ("human", "both"):
-        yield g.human_edit(pos=rng.choice(["above_ai", "below_ai", "inside_ai", "any"]))
+        if mode == "human" and g.gated("amend_shift"):
+            # known finding amend-shift: a human-only change above/inside the commit's AI lines
+            yield g.human_edit(kinds=["append"])
+        else:
+            yield g.human_edit(pos=rng.choice(["above_ai", "below_ai", "inside_ai", "any"]))
     if mode == "message":
         yield g.git("commit", "-q", "--amend", "-m", g.msg(), check=True, rewrite=True)
     else:
@@ -299,7 +316,9 @@ def fam_squash_merge(g):
         yield from g.commit_all()
     yield g.git("merge", "--squash", "feat", rewrite=True)
     if g.has_conflicts():
-        yield {"op": "resolve", "strategy": "union", "dt": g.dt()}
+        # the squash merge failed (exit 1) and is finished by hand
+        g.ex.probe("squash.conflict")
+        yield {"op": "resolve", "strategy": "union", "dt": g.dt(), "relax": "one_sided"}
     yield g.git("commit", "-q", "-m", g.msg(), check=True)
 
 
@@ -314,7 +333,7 @@ def fam_merge(g):
     if rng.random() < 0.6:
         yield upstream_change(g, pos, path)
         yield from g.commit_all()
-    yield g.git("merge", "-q", "--no-edit", "feat", check=True)
+    yield g.git("merge", "-q", "--no-edit", "feat", check=True, rewrite=True)
     if g.in_progress() == "merge":
         if rng.random() < 0.4:
             yield g.git("merge", "--abort", aborts=True)
@@ -346,7 +365,8 @@ def fam_stash(g):
     rng = g.rng
     files = g.worktree_files()
     path = rng.choice(files) if files else None
-    pos = rng.choice(["none", "above", "below", "interleaved", "other_file"])
+    pos = g.choose_pos(["none", "above", "below", "interleaved", "other_file"], "stash_pop_shift",
+                       banned=("above", "interleaved"))
     yield from g.some_edits(n_ai=(1, 2), n_human=(0, 1), path=path)
     yield g.git("stash", "push", "-q", rewrite=True)
     if pos != "none":
@@ -354,7 +374,9 @@ def fam_stash(g):
         yield from g.commit_all()
     yield g.git("stash", rng.choice(["pop", "apply"]), "-q", rewrite=True)
     if g.has_conflicts():
-        yield {"op": "resolve", "strategy": "union", "dt": g.dt()}
+        # the pop failed (exit 1): what it would have restored is no longer "pending attribution"
+        g.ex.probe("stash.pop_conflict")
+        yield {"op": "resolve", "strategy": "union", "dt": g.dt(), "relax": "one_sided"}
         yield g.git("reset", "-q")
     yield from g.commit_all()
 
